@@ -111,9 +111,7 @@ PROPS = {
                     {"name": "ops", "n_quick": 1500, "n_thorough": 30000}],
         "trusted": ["the operator / interpreter model (validated differentially each run, operands in variable, slice-element and literal modes)"],
         "assumptions": ["RV.ity models reflect kind Interface; the model never inspects it except through the unwrap idiom (syntactic fact of lean/Anko/Model/Eval.lean)"],
-        "partial": ["the invariance theorems are per operation (operators, in, switch, conditions, indices, nil test, conversion, callee); the commutation of the WHOLE "
-                    "evaluator with flag erasure is not yet a theorem - whole-program invariance is established by the prov stream (templates x values x provenance chains) "
-                    "on the interpreter and, for F0, against the model"],
+        "partial": ["the whole-evaluator theorem (interface_flag_is_unobservable) is about the model: two provenance policies through all 28 functions of the evaluator; Go values the model has no constructor for (typed slices, pointers, channels, structs) are covered by the prov stream only"],
     },
     "C14": {
         "gens": ["AstWrites"],
@@ -347,11 +345,14 @@ MANIFEST_TEXT = {
     "C20": {
         "text": "Machine-checked proofs (Lean 4) that every operation of the model - all unary/binary operators, ==/!=, in, switch matching, "
                 "conditions, index/slice/make sizes, the nil test of ??, conversion to Go parameters, callee selection - depends on its "
-                "operands only through the dynamic value, never on the interface flag that records provenance. Search/oracle (metamorphic, "
-                "implementation only): 53 operation templates x 13 operand values (incl. channels, pointers, functions) x provenance "
+                "operands only through the dynamic value, never on the interface flag that records provenance; and for the WHOLE evaluator: the "
+                "model is parametrised by the provenance policy (which flag containers and interface-returning Go functions hand out), and "
+                "for every program, fuel and cancellation point the real policy and the flag-free policy give the same trace, error status, "
+                "result value, poll count and final bindings (a simulation through all 28 mutually recursive functions of the evaluator, "
+                "unbounded programs). Search/oracle (metamorphic, implementation only): 70+ operation templates x 13 operand values (incl. channels, pointers, functions) x provenance "
                 "chains of length 1-3 over 11 wrappers must give the same outcome as the plain variable; F0 cases also through the model.",
         "note": "Trusted: Lean kernel; model fidelity (differential). Follows the repaired interpreter (fix commits 46a7c4f, 3e4c598).",
-        "technique": "Lean 4 proof (per-operation invariance) + metamorphic provenance correspondence",
+        "technique": "Lean 4 proof (per-operation invariance; whole-evaluator simulation between provenance policies by induction on fuel) + metamorphic provenance correspondence",
         "design_ref": "DESIGN.md section 6 (C20)",
     },
     "C14": {
